@@ -1625,6 +1625,10 @@ theorem conforms_delete {s : St} {T : TState} (hc : Conforms s T) (m : Bool) (p 
     intro n d hd
     obtain ⟨w, h1, h2⟩ := hc.vars n d hd
     exact ⟨w, by simpa [St.getVar, hv] using h1, h2⟩
+  have hclosed : ∀ n w, (s.targetRemove m p b).2.getVar n = some w →
+      (T.getVar n).isSome = true ∨ n ∈ T.leaked := by
+    intro n w hn
+    exact hc.closed n w (by simpa [St.getVar, hv] using hn)
   cases m with
   | false =>
     simp only [Bool.false_eq_true, if_false] at hrest
@@ -1635,7 +1639,8 @@ theorem conforms_delete {s : St} {T : TState} (hc : Conforms s T) (m : Bool) (p 
     rw [this]
     exact ⟨by rw [hfa]; exact hc.faults, hvars, by rw [hrest.1]; exact hmem,
       by rw [hrest.1]; exact C18.remove_sorted _ _ _ hc.eventSorted,
-      by rw [hrest.2]; exact hc.metadata, by rw [hrest.2]; exact hc.metadataSorted⟩
+      by rw [hrest.2]; exact hc.metadata, by rw [hrest.2]; exact hc.metadataSorted,
+      by cases T; exact hclosed⟩
   | true =>
     simp only [if_true] at hrest
     simp only [TState.extKind, if_true] at hok
@@ -1645,7 +1650,7 @@ theorem conforms_delete {s : St} {T : TState} (hc : Conforms s T) (m : Bool) (p 
     rw [this]
     exact ⟨by rw [hfa]; exact hc.faults, hvars, by rw [hrest.2]; exact hc.event,
       by rw [hrest.2]; exact hc.eventSorted, by rw [hrest.1]; exact hmem,
-      by rw [hrest.1]; exact C18.remove_sorted _ _ _ hc.metadataSorted⟩
+      by rw [hrest.1]; exact C18.remove_sorted _ _ _ hc.metadataSorted, by cases T; exact hclosed⟩
 
 theorem conforms_delExternal {s' : St} {T : TState} (m : Bool) (p : Path) (compact : Option Bool) (b : Bool)
     (hb : ∀ c, compact = some c → b = c)
@@ -1658,22 +1663,25 @@ theorem conforms_delExternal {s' : St} {T : TState} (m : Bool) (p : Path) (compa
     simp only [delExternal, TState.mergeExternal]
     simp only [delUnionChecks, allNan_append] at hk
     rw [allNan_chk (by decide), allNan_chk (by decide)] at hk
-    have hloc : ∀ b', (deleteExt T m p b').locals = T.locals := by
+    have hloc : ∀ b', (deleteExt T m p b').locals = T.locals ∧ (deleteExt T m p b').leaked = T.leaked := by
       intro b'
       unfold deleteExt
       split
-      · unfold TState.setExt; split <;> rfl
-      · rfl
+      · unfold TState.setExt; split <;> exact ⟨rfl, rfl⟩
+      · exact ⟨rfl, rfl⟩
     cases b with
     | false =>
       exact ⟨hc.faults, hc.vars, mem_union_left' hk.1 hc.event, hc.eventSorted,
-        mem_union_left' hk.2 hc.metadata, hc.metadataSorted⟩
+        mem_union_left' hk.2 hc.metadata, hc.metadataSorted, hc.closed⟩
     | true =>
       refine ⟨hc.faults, ?_, mem_union_right' hk.1 hc.event, hc.eventSorted,
-        mem_union_right' hk.2 hc.metadata, hc.metadataSorted⟩
-      intro n d hd
-      apply hc.vars n d
-      simpa [TState.getVar, hloc] using hd
+        mem_union_right' hk.2 hc.metadata, hc.metadataSorted, ?_⟩
+      · intro n d hd
+        apply hc.vars n d
+        simpa [TState.getVar, (hloc true).1, (hloc false).1] using hd
+      · intro n w hn
+        have := hc.closed n w hn
+        simpa [TState.getVar, (hloc true).1, (hloc false).1, (hloc true).2, (hloc false).2] using this
 
 /-- the value `del` returns is what the path held -/
 theorem del_result {s : St} {T : TState} (hc : Conforms s T) (m : Bool) (p : Path) (b : Bool)
